@@ -211,5 +211,26 @@ PROPS["C12"] = dict(
     ],
 )
 
+RBTREE_ERASE = "_Rb_tree.*8_M_eraseEPSt13_Rb_tree_node"
+PROPS["C10"] = dict(
+    title="Networked cache with local L1 never serves data another node replaced",
+    level="model_checking",
+    trusted_base=COMMON_TB + ["session object is raw storage with data_in_/hin_/hout_/cache_ constructed; the backend cache is a recording stub",
+                              "std::_Rb_tree rebalancing modelled as an unbalanced BST (models.c); recursive node destruction of std::set is skipped (leak)",
+                              "allocations above 2^20 bytes raise std::bad_alloc"],
+    assumptions=["payload size enumerated (small), header fields and payload bytes symbolic"],
+    outside="L1 coherence protocol over several clients (cache_over_ip), client encoder, key spreading over servers, sockets and timeouts",
+    obligations=[
+        dict(id="C10.a", harness="C10_tcpcache.cpp", entry="h_c10a_fetch_reply", ctors=False, cut=[STRING_REALLOC], noop=[RBTREE_ERASE],
+             desc="session::fetch: 'uptodate' only for a revalidation request presenting the entry's current generation; otherwise exactly the backend's value/generation/deadline; miss => no_data (the primitive the L1 coherence rests on)",
+             tiers=T(quick=dict(split=[[0, 2], [0, 2]], unwind=8, timeout=900, bounds="key length in {0,2} x value length in {0,2}; bytes, generations, flags, deadline symbolic"))),
+        dict(id="C10.b0", harness="C10_tcpcache.cpp", entry="h_c10b_store_validation", ctors=False, clang_flags=["-fno-inline"],
+             drop=["19_M_replace_dispatchIN9__gnu_cxx17__normal_iteratorIPcSt6vectorIcS3_EEEEERS4_NS7_IPKcS4_EESF_T_SG_St12__false_type"],
+             roots=["verif_passed_validation"], models=["stubs_c10.c"], noop=[RBTREE_ERASE],
+             desc="session::store frame validation: execution gets past the check only if key_len+data_len+triggers_len == size without 32-bit wrap-around and key_len != 0 (probe at the first use of the lengths)",
+             tiers=T(quick=dict(split=[[0, 2, 16]], unwind=20, timeout=600, bounds="payload size in {0,2,16}; arbitrary 32-bit key_len, data_len, triggers_len"))),
+    ],
+)
+
 # properties for which no obligation can be built with this technique (reason required)
 NOT_APPLICABLE = {}
